@@ -144,6 +144,11 @@ var Features = []Feature{
 		t := d.Table("t")
 		t.Cols = append(t.Cols, Col{Name: "i", Type: "integer", Gen: "id * 2", GenStored: true})
 	}},
+	// a generated column declared before ordinary columns: rebuild copies must skip it and keep going.
+	{Name: "col_m_virtual_middle", Apply: func(d *DB) {
+		t := d.Table("t")
+		t.Cols = append(t.Cols[:1:1], append([]Col{{Name: "m", Type: "integer", Gen: "id + 2"}}, t.Cols[1:]...)...)
+	}},
 	{Name: "a_type_text", Group: "a", Apply: func(d *DB) { d.Table("t").Col("a").Type = "text" }},
 	{Name: "a_notnull", Group: "a", Apply: func(d *DB) { d.Table("t").Col("a").NotNull = true }},
 	{Name: "a_notnull_default", Group: "a", Apply: func(d *DB) { c := d.Table("t").Col("a"); c.NotNull = true; c.Default = "7" }},
